@@ -34,7 +34,7 @@ def instances(tier, seed):
         kw["label"] = op + " " + " ".join("%s=%s" % (k, str(v).replace(" ", "")) for k, v in sorted(kw.items()) if k not in ("op",))
         kw["label"] = kw["label"][:230]
         kw["key"] = op
-        if op == "ground_state" and "S" in kw["kinds"]:
+        if op == "ground_state" and ("S" in kw["kinds"] or "E2" in kw["kinds"]):      # both are BasisHalfSpin with non-zero sigmaqn
             kw["key"] = "ground_state[half-spin basis with non-zero sigmaqn]"
         out.append(kw)
 
@@ -80,8 +80,11 @@ def instances(tier, seed):
         if "e" in kinds:
             add("max_entangled", kinds=kinds, which="gs")
             add("max_entangled", kinds=kinds, which="ex")
-    for kinds, qntot, m in ([(("e", "e"), 1, 2), (("e", "e", "e"), 1, 2), (("e", "e", "e"), 2, 2)] if tier == "quick" else
-                            [(("e", "e"), 1, 2), (("e", "e", "e"), 1, 2), (("e", "e", "e"), 2, 2), (("e", "w", "e"), 1, 3), (("e", "e", "e", "e"), 2, 2), (("e", "e", "e"), 3, 2)]):
+    # sectors next to the empty / the completely filled one with small bond limits included: there the random selection of kept labels can run into dead ends
+    for kinds, qntot, m in ([(("e", "e"), 1, 2), (("e", "e", "e"), 1, 2), (("e", "e", "e"), 2, 2), (("e", "e", "e"), 3, 2), (("e", "e", "e"), 3, 1), (("e", "e"), 2, 1), (("e", "e", "e"), 0, 1)]
+                            if tier == "quick" else
+                            [(("e", "e"), 1, 2), (("e", "e", "e"), 1, 2), (("e", "e", "e"), 2, 2), (("e", "w", "e"), 1, 3), (("e", "e", "e", "e"), 2, 2), (("e", "e", "e"), 3, 2),
+                             (("e", "e", "e"), 3, 1), (("e", "e"), 2, 1), (("e", "e", "e"), 0, 1), (("e", "e", "e", "e"), 2, 1), (("e", "e", "e", "e"), 4, 2), (("e", "w", "e", "w"), 2, 1)]):
         add("random", kinds=kinds, qntot=qntot, m=m)
     # (d) masks
     for kinds, bonds in shapes[:2]:
@@ -283,6 +286,8 @@ def h_update(ctx, P):
     mp.compress_config = cfg
     qnbigl, qnbigr, qnmat = mp._get_big_qn(cidx)
     mask = np.asarray(get_qn_mask(qnmat, mp.qntot))
+    if not mask.any():
+        return      # label structure without any allowed centre entry: the chain can only represent the zero vector, no update is defined (svd_qn raises)
     cs_shape = mask.shape
     c = lib.masked_array(ctx, "c", cs_shape, "real", mask)
     # the state the update is supposed to represent: c at the centre site(s), the rest as is
